@@ -103,7 +103,13 @@ def run_stream(prop, res, sc, workdir):
         rc, cout = V.run_h(["run", sc.name], inp="\n".join(cin) + "\n")
         couts = cout.split("\n")[:len(cin)]
         # prepend
-        for suf, extra in ((".in", cin), (".impl", couts), (".desc", ["corpus"] * len(cin))):
+        cdesc = ["corpus"] * len(cin)
+        cdesc_path = os.path.join(V.VERIF, "corpus", sc.name + ".desc")   # optional: one description per corpus case
+        if os.path.exists(cdesc_path):
+            dl = [l for l in V.read_lines(cdesc_path) if l.strip() and not l.startswith("#")]
+            if len(dl) == len(cin):
+                cdesc = ["corpus " + l for l in dl]
+        for suf, extra in ((".in", cin), (".impl", couts), (".desc", cdesc)):
             body = open(prefix + suf).read()
             with open(prefix + suf, "w") as f:
                 f.write("\n".join(extra) + "\n" + body)
@@ -708,3 +714,24 @@ reg(Prop("C17", "Static evaluation is colour-symmetric and depends only on the p
                   "sliding and leaper attacks are the geometric definitions of Spec/Geometry.v (tied to the engine's magic tables by C12 and, end to end, by this stream)"],
          assumptions=["board words < 2^64, exactly one king per side, knights and bishops belong to a colour (fragment of the representation invariant; part of `valid`)"],
          design_ref="5/C17"))
+
+reg(Prop("C05", "Pseudo-legality test accepts exactly the moves the generator emits", "Properties/C05.v",
+         [StreamCfg("c05", 1000, 50000, judge="judge_c05",
+                    rule="per position ALL 32768 encodings through Board.IsPseudoLegal and the output of GenNoisy+GenNotNoisy "
+                         "(model: Model/Movegen.v; judge: accepted set = generated set on valid positions); 59 hand roots "
+                         "(castling with every obstacle/attack/right state, en-passant flags, pawns on 2nd/7th ranks, the "
+                         "positions of the repaired promotion-bits defect), 35 % random castling/pawn-rank/ep placements (G6), "
+                         "the rest G1 play-outs / G2 sparse / G4 mutations; non-trivial = every position; distinct by FEN"),
+          StreamCfg("c05u", 2400, 100000, judge="judge_c05u",
+                    rule="uci.parseUCIMove on byte strings: texts of generated moves, promotion-suffix variants, random "
+                         "squares, one-byte mutations (letters beyond h, digits 0/9, upper case, bytes that wrap in uint8), "
+                         "random bytes of length 0..7, fixed strings; judge: a returned move is a generated move, the text of "
+                         "a generated move is accepted; distinct by (FEN, string)")],
+         trusted=["hook board/export_verif.go (VerifSnapshot/VerifRestore: positions are handed to the engine as boards)",
+                  "hook uci/export_verif.go (VerifParseUCIMove calls the unexported parseUCIMove)",
+                  "Model/Att.v uses the geometric slider/leaper definitions; that the engine's magic tables compute them is property C12"],
+         assumptions=["position valid in the sense of Spec/Chess.v `valid` (one king per side, no pawns on ranks 1/8, material reachable by "
+                      "promotion, side not to move not in check, castling rights only with king and rook at home, en-passant "
+                      "target behind a pawn that could just have double-pushed)",
+                      "move encodings below 2^15 (bit 15 of the storage word is clear in every move the engine creates)"],
+         design_ref="5/C05"))
